@@ -23,6 +23,7 @@ files are decoded with tokenize.detect_encoding.
 """
 
 import codecs
+import collections
 import io
 import itertools
 import json
@@ -315,6 +316,9 @@ class Env:
         self.n = 0
         self.total = 0
         self.pending = []  # (entry for the child, judge closure data)
+        self.search = False  # worker mode: look for the earlier case an order-dependent failure needs
+        self.recent = collections.deque(maxlen=50)  # the last cells this process executed (case dicts)
+        self.reported = set()  # base signatures already written out by this worker
         self.fresh()
 
     def fresh(self):
@@ -449,6 +453,32 @@ def run_child(entries, st):
 
 
 # --------------------------------------------------------------------------
+# reporting (order-dependent failures get the earlier case they need: core.find_prelude)
+
+ORDER_SUFFIX = "|after an earlier case in the same process"
+
+
+def report(st, env, sig, case, oracle, expected=None, observed=None):
+    """case["sig"] is the base signature replay() compares with.  In a worker only the first failure per signature
+    is written out (with its prelude); the others are counted."""
+    if env is None or not env.search:
+        st.violation(sig, case, oracle, expected=expected, observed=observed)
+        return
+    if sig in env.reported:
+        key = sig + ORDER_SUFFIX if (sig + ORDER_SUFFIX) in st.sigcount else sig
+        st.sigcount[key] += 1
+        return
+    env.reported.add(sig)
+    prelude = core.find_prelude("mc.props.c18", case, list(env.recent), max_tries=12)
+    if prelude:
+        case = dict(case, prelude=prelude)
+        sig = sig + ORDER_SUFFIX
+    elif prelude is None:
+        st.extra["candidates_not_reproduced_in_a_fresh_interpreter"] = st.extra.get("candidates_not_reproduced_in_a_fresh_interpreter", 0) + 1
+    st.violation(sig, case, oracle, expected=expected, observed=observed)
+
+
+# --------------------------------------------------------------------------
 # judging one observation
 
 
@@ -458,8 +488,9 @@ def _pathclass(path):
 
 
 class Judge:
-    def __init__(self, st, case_base, declname, exp, closed, closed_def, ref_u, ref_code, bom):
+    def __init__(self, st, case_base, declname, exp, closed, closed_def, ref_u, ref_code, bom, env=None):
         self.st = st
+        self.env = env
         self.case_base = case_base
         self.declname = declname
         self.exp = exp
@@ -470,6 +501,7 @@ class Judge:
         self.bom = bom
         self._failed = False
         self.any_failed = False
+        self.verify_alone = None
 
     def viol(self, oracle, path, out, detail, expected=None, observed=None):
         # one report per observation: the first oracle that fails (later ones are consequences)
@@ -493,7 +525,11 @@ class Judge:
             sig = "%s|decl=%s|path=%s|%s" % (oracle, dc, _pathclass(path), detail)
         case = dict(self.case_base)
         case.update({"path": path, "out": list(out), "sig": sig})
-        self.st.violation(sig, case, oracle, expected=expected, observed=observed)
+        if path == "newproc" and self.verify_alone is not None and not self.verify_alone():
+            # fails only after the other entries of the batched child: an artefact of batching, not of a fresh process
+            self.st.extra["newproc_batch_order_artefacts"] = self.st.extra.get("newproc_batch_order_artefacts", 0) + 1
+            return
+        report(self.st, self.env, sig, case, oracle, expected, observed)
 
     def judge(self, path, out, obs, alt_refs=None):
         """-> outcome class"""
@@ -704,7 +740,7 @@ def run_source_case(codec, decl, carrier, L, outs, paths, env, st, seen=None, li
     fn = os.path.join(env.tdir, base + ".html")
     with open(fn, "wb") as f:
         f.write(raw)
-    jd = Judge(st, case_base, declname, exp, closed, closed_def, ref_u, ref_code, bom)
+    jd = Judge(st, case_base, declname, exp, closed, closed_def, ref_u, ref_code, bom, env)
     with_def = carrier == "defattr" and exp[0] == "ok"
     us = {}
     for oi, out0 in enumerate(outs):
@@ -729,6 +765,8 @@ def run_source_case(codec, decl, carrier, L, outs, paths, env, st, seen=None, li
             obs = exec_path(path, raw, fn, name, kw, env, st, want_code=(path != "reopen"), with_def=with_def)
             oc = jd.judge(path, out, obs, alt_refs)
             st.outcomes[(path, _declclass(declname), exp[0], oc)] += 1
+            if env.search:
+                env.recent.append(dict(case_base, path=path, out=list(out)))
             if "u" in obs and exp[0] == "ok":
                 us[(path, out)] = obs["u"]
     # render_unicode() ignores output_encoding: identical for every output configuration of a path
@@ -772,7 +810,18 @@ def flush_newproc(env, st):
                         alt.append(Template(t_, uri="ref").render_unicode())
                     except Exception:  # noqa
                         pass
+            def verify_alone(ent=ent, jd=jd, out=out, alt=alt):
+                r1 = run_child([ent], st)
+                if r1 is None:
+                    return True
+                st2 = Stats()
+                j2 = Judge(st2, jd.case_base, jd.declname, jd.exp, jd.closed, jd.closed_def, jd.ref_u, jd.ref_code, jd.bom, None)
+                j2.judge("newproc", out, r1[0], alt)
+                return bool(st2.violations)
+
+            jd.verify_alone = verify_alone if env.search else None
             oc = jd.judge("newproc", out, obs, alt)
+            jd.verify_alone = None
             st.outcomes[("newproc", _declclass(declname), jd.exp[0], oc)] += 1
     env.pending = []
     env.drop()
@@ -787,6 +836,7 @@ def run_grid(job, st):
     outs = OUTS_QUICK if quick else OUTS_THOROUGH
     paths = PATHS_QUICK if quick else PATHS_THOROUGH
     env = Env()
+    env.search = True
     seen = set()
     nsrc = 0
     for codec, decl, carrier, L in source_cases(tier, seed):
@@ -871,7 +921,7 @@ def run_neg_case(codec, decl, seq, frame, paths, env, st):
             sig = "neg-%s|decl=%s|path=%s|%s" % (oracle, declname, _pathclass(path), detail)
             case = dict(case_base)
             case.update({"path": path, "sig": sig})
-            st.violation(sig, case, oracle, expected=expected, observed=observed)
+            report(st, env, sig, case, oracle, expected, observed)
 
         if exp[0] == "error":
             if exc is None:
@@ -900,6 +950,8 @@ def run_neg_case(codec, decl, seq, frame, paths, env, st):
                 if not (src == exp[1] or (bom and src == "﻿" + exp[1])):
                     viol("source", "Template.source is not the decoded text", exp[1], src)
         st.outcomes[("neg", path, exp[0], oc)] += 1
+        if env.search:
+            env.recent.append(dict(case_base, path=path))
     env.total += 1
     if env.total % 1501 == 1:
         st.sample({"kind": "neg", "codec": codec, "decl": declname, "seq": seq.hex(), "frame": frame, "expected": exp[0]})
@@ -930,6 +982,7 @@ def neg_seqs(job):
 def run_neg(job, st):
     codec = job["codec"]
     env = Env()
+    env.search = True
     ds = neg_decls(codec)
     if job["what"] != "single":
         ds = ds[:1]
